@@ -377,6 +377,61 @@ def run_C03(ctx):
     return vlib.finish(ctx, confirm_all)
 
 
+def attach_env_table(ctx, name, kind):
+    """cases that refer to the environment table of their cases file become self-contained events"""
+    table = None
+    with open(os.path.join(ctx.work, name + ".gen", "cases.ndjson")) as f:
+        for line in f:
+            if '"op":"envtable"' in line:
+                table = json.loads(line)["envs"]
+                break
+    for c in ctx.candidates:
+        if c["kind"] == kind and c.get("stage") == name and "envs" not in c["event"]:
+            if table is None:
+                raise Broken("%s: no environment table emitted" % name)
+            c["event"] = dict(c["event"], envs=table)
+
+
+def describe_fold(ev, obs, entry):
+    exp = entry.get("exp") or []
+    if not isinstance(obs, dict) or "snap" not in obs:
+        o = "panic/invalid %s" % json.dumps(obs)[:200]
+    elif obs["snap"] != "same":
+        o = "snapshot: %s" % obs["snap"][:200]
+    else:
+        diffs = []
+        for way in ("folded", "direct"):
+            for k, (a, b) in enumerate(zip(obs[way], exp)):
+                if a != "n/a" and a != b:
+                    diffs.append("%s[env %s]=%s, specified %s" % (way, envhash(ev["envs"][k]), a, b))
+        o = "; ".join(diffs[:4]) + (" (+%d more)" % (len(diffs) - 4) if len(diffs) > 4 else "")
+    return "fold %s => %s" % (pretty.sp(ev["policy"]), o)
+
+
+KINDS["fold"] = dict(module="Trace_Fold", shrink=None, describe=describe_fold)
+
+
+@prop("C04")
+def run_C04(ctx):
+    ctx.rule = ("M1: MC_Fold checks FoldSound (the fold rules of spec/Fold.tla never change value-or-failure) and "
+                "Outcome(FoldPolicy(p)) = Outcome(p) for every expression of ExprUniverse (Depth1; Depth2 = every parent/child/"
+                "position triple) under every environment of the table. M2: every policy is emitted with the Outcome of the "
+                "ORIGINAL tree per environment; the harness compiles it with cedar.NewPolicyFromAST (which folds) and authorizes, "
+                "evaluates PolicyToNode of the unfolded tree with x/exp/eval.Eval, and compares the caller's AST, Policy.AST(), "
+                "MarshalCedar and MarshalJSON before/after compilation and authorization. M3: random constant-heavy policies "
+                "under random environments validated by Trace_Fold. distinct = distinct policies.")
+    ctx.assumptions = ["outcomes come from the TLA+ evaluator (see C01)",
+                       "'never evaluates anything request- or store-dependent' is observed through outcomes on environments "
+                       "that differ in every entity-dependent observation, and through the AST snapshots"]
+    q = ctx.quick
+    consts = "CONSTANT UseDepth2 = %s\nCONSTANT EnvStride = %d\n" % ("FALSE" if q else "TRUE", 6 if q else 1)
+    add_m2(ctx, "fold", "universe", "MC_Fold", ["mc/MC_Fold.tla"], cfg=GEN_CFG + "INVARIANT FoldTheorem\n" + consts,
+           min_cases=500, timeout=7200, workers=1)
+    attach_env_table(ctx, "universe", "fold")
+    add_m3(ctx, "fold", "random", "fold", 2000 if q else 60000)
+    return vlib.finish(ctx, confirm_all)
+
+
 # ====================================================================== replay of a stored violation
 
 def replay(ctx, path):
